@@ -128,11 +128,24 @@ type Plan struct {
 	Walks   [][2]interface{} `json:"walks"`
 }
 
-// Node is one exported chain state: its action path, the listing plans and the Get coordinates.
+// WWAct is a transaction committed during a walk, after `After` pages have been answered.
+type WWAct struct {
+	After int             `json:"after"`
+	A     json.RawMessage `json:"a"`
+}
+
+// WWalk is one schedule of a walk while the chain moves (ChainQuery part 5), as exported by TLC.
+type WWalk struct {
+	Q    WalkReq `json:"q"`
+	Acts []WWAct `json:"acts"`
+}
+
+// Node is one exported chain state: its action path, the listing plans, the Get coordinates, the walks under writes.
 type Node struct {
-	P     json.RawMessage     `json:"p"`
-	Plans map[string]Plan     `json:"plans"`
-	Gets  map[string][]Coord  `json:"gets"`
+	P      json.RawMessage    `json:"p"`
+	Plans  map[string]Plan    `json:"plans"`
+	Gets   map[string][]Coord `json:"gets"`
+	WWalks []WWalk            `json:"wwalks"`
 }
 
 var listKinds = []string{"deployments", "orders", "bids", "leases", "providers", "audits", "auditor", "eaccts", "epays"}
